@@ -61,6 +61,10 @@ let () =
         | "reopen" :: _ -> Some OReopen
         | "inquire" :: _ -> Some (OInquire (zi 1))
         | "elts" :: _ -> Some (OElts (zi 1))
+        | "setname" :: _ -> Some (OSetName (zi 1, if nth 2 = "-" then [] else name_of (nth 2)))
+        | "setclass" :: _ -> Some (OSetClass (zi 1, if nth 2 = "-" then [] else name_of (nth 2)))
+        | "getname" :: _ -> Some (OGetName (zi 1))
+        | "getclass" :: _ -> Some (OGetClass (zi 1))
         | "sizeof" :: _ -> Some (OSizeof (zi 1, names_of (nth 2)))
         | "field" :: _ -> Some (OField (zi 1, zi 2))
         | "nfields" :: _ -> Some (ONFields (zi 1))
@@ -85,7 +89,7 @@ let () =
          | ROk (vals, names, bytes) ->
            Printf.printf "%d ok%s%s%s\n" !ln
              (String.concat "" (List.map (fun v -> " " ^ string_of_int (iz v)) vals))
-             (match names with [] -> "" | _ -> " " ^ String.concat "," (List.map str_of_name names))
+             (match names with [] -> "" | _ -> " " ^ String.concat "," (List.map (fun n -> if n = [] then "-" else str_of_name n) names))
              (String.concat "" (List.map (fun b -> " " ^ hex b) bytes)))
     done
   with End_of_file -> ())
